@@ -871,6 +871,10 @@ func (r *runningStep) provideEnablingInput(input map[string]any) error {
 		enabled = unserializedEnabled.(bool)
 	}
 	r.enabledInputAvailable = true
+	if r.state == step.RunningStepStateWaitingForInput && r.currentStage == StageIDEnabling {
+		// The step has work to do now, even if its goroutine has not picked the input up yet.
+		r.state = step.RunningStepStateRunning
+	}
 	r.enabledInput <- enabled
 	return nil
 }
@@ -903,6 +907,10 @@ func (r *runningStep) provideStartingInput(input map[string]any) error {
 
 	// Make sure we transition the state before unlocking so there are no race conditions.
 	r.runInputAvailable = true
+	if r.state == step.RunningStepStateWaitingForInput && r.currentStage == StageIDStarting {
+		// The step has work to do now, even if its goroutine has not picked the input up yet.
+		r.state = step.RunningStepStateRunning
+	}
 
 	// Unlock before passing the data over the channel to prevent a deadlock.
 	// The other end of the channel needs to be unlocked to read the data.
@@ -1196,7 +1204,11 @@ func (r *runningStep) enableStage() (bool, bool) {
 	previousStage := string(r.currentStage)
 	r.currentStage = StageIDEnabling
 	enabledInputAvailable := r.enabledInputAvailable
-	r.state = step.RunningStepStateWaitingForInput
+	if enabledInputAvailable {
+		r.state = step.RunningStepStateRunning
+	} else {
+		r.state = step.RunningStepStateWaitingForInput
+	}
 	r.lock.Unlock()
 
 	r.stageChangeHandler.OnStageChange(
